@@ -119,6 +119,12 @@ type c01F func(in []*c01V) ([]*c01V, bool)
 // containers, ordering against null).
 var c01Empty, c01Open bool
 
+// c01MissingOperand: a key that is not there was read while evaluating an operand of a binary operator. The
+// reference gives null there, as everywhere; yq reads operands in a context that does not auto-create and yields
+// no result at all for the missing key, which shows wherever the count of results matters (inside [...]).
+var c01MissingOperand bool
+var c01OperandDepth int
+
 func c01Each(f func(v *c01V) ([]*c01V, bool)) c01F {
 	return func(in []*c01V) ([]*c01V, bool) {
 		var out []*c01V
@@ -165,6 +171,9 @@ func c01Key(k string) c01F {
 				if kk == k {
 					return []*c01V{v.items[i]}, true
 				}
+			}
+			if c01OperandDepth > 0 {
+				c01MissingOperand = true
 			}
 			return []*c01V{c01Null()}, true
 		case 0:
@@ -249,11 +258,14 @@ func c01BinSC(f, g c01F, op func(a, b *c01V) (*c01V, bool), shortCircuit func(a 
 		}
 		var all []*c01V
 		for _, v := range in {
+			c01OperandDepth++
 			ls, ok := f([]*c01V{v})
 			if !ok {
+				c01OperandDepth--
 				return nil, false
 			}
 			rs, ok := g([]*c01V{v})
+			c01OperandDepth--
 			if !ok {
 				return nil, false
 			}
@@ -681,6 +693,29 @@ func c01Contains(a, b *c01V) (*c01V, bool) {
 	return c01Bool(true), true
 }
 
+// c01SeqMinus: a - b on sequences removes from a every element equal to some element of b (null equals only null)
+func c01SeqMinus(a, b *c01V) (*c01V, bool) {
+	if a.k != 4 || b.k != 4 {
+		return nil, false
+	}
+	var out []*c01V
+	for _, x := range a.items {
+		drop := false
+		for _, y := range b.items {
+			if x.k >= 4 || y.k >= 4 {
+				c01Open = true
+			}
+			if c01Eq(x, y) {
+				drop = true
+			}
+		}
+		if !drop {
+			out = append(out, x)
+		}
+	}
+	return c01Seq(out...), true
+}
+
 var c01FromEntries = c01Each(func(v *c01V) ([]*c01V, bool) {
 	if v.k != 4 {
 		return nil, false
@@ -738,6 +773,17 @@ func c01Programs() []c01Prog {
 		{".b == 1 | not", c01Pipe(c01Bin(b, one, c01Cmp("==")), c01Not)}, {".a + [.b]", c01Bin(a, c01Collect(b), c01Add)}, {".a + .a", c01Bin(a, a, c01Add)}, {".m + {\"z\": .b}", c01Bin(m, c01Object("z", b), c01Add)}, {".m + {\"k\": .b}", c01Bin(m, c01Object("k", b), c01Add)},
 		{"\"x\" + .s", c01Bin(c01Lit(c01Str("x")), s, c01Add)}, {".m + .b", c01Bin(m, b, c01Add)}, {".a[] - .m", c01Bin(ai, m, c01Arith("-"))}, {".a.k", c01Pipe(a, c01Key("k"))},
 		{".a | map(. * 2) | reverse", c01Pipe(a, c01Pipe(c01MapF(c01Bin(c01Self, c01Lit(c01Int(2)), c01Arith("*"))), c01Reverse))}, {"[.a[] | select(. != 0)] | length", c01Pipe(c01Collect(c01Pipe(ai, c01Select(c01Bin(c01Self, c01Lit(c01Int(0)), c01Cmp("!="))))), c01Length)},
+		// sequence subtraction, with nulls and strings among the elements
+		{"[.missing, .b, .s] - [.b]", c01Bin(c01Collect(c01Union(c01Union(c01Key("missing"), b), s)), c01Collect(b), c01SeqMinus)},
+		{"[.missing, .a[], .s] - [.missing]", c01Bin(c01Collect(c01Union(c01Union(c01Key("missing"), ai), s)), c01Collect(c01Key("missing")), c01SeqMinus)},
+		{"[null, .b, .s] - [.b]", c01Bin(c01Collect(c01Union(c01Union(c01Lit(c01Null()), b), s)), c01Collect(b), c01SeqMinus)},
+		{"[null, .a[], .s] - [.s]", c01Bin(c01Collect(c01Union(c01Union(c01Lit(c01Null()), ai), s)), c01Collect(s), c01SeqMinus)},
+		{"[.b, null, .s] - [null]", c01Bin(c01Collect(c01Union(c01Union(b, c01Lit(c01Null())), s)), c01Collect(c01Lit(c01Null())), c01SeqMinus)},
+		{".a - [.b]", c01Bin(a, c01Collect(b), c01SeqMinus)}, {"[.b, .missing] - [.s]", c01Bin(c01Collect(c01Union(b, c01Key("missing"))), c01Collect(s), c01SeqMinus)},
+		// the same variable on both sides of a union / twice in a collection
+		{".b as $x | ($x, $x)", c01Var(b, func(x *c01V) c01F { return c01Union(c01Lit(x), c01Lit(x)) })},
+		{".a[] as $x | [$x, $x]", c01Var(ai, func(x *c01V) c01F { return c01Collect(c01Union(c01Lit(x), c01Lit(x))) })},
+		{".b as $x | ($x, .b, $x)", c01Var(b, func(x *c01V) c01F { return c01Union(c01Union(c01Lit(x), b), c01Lit(x)) })},
 		{".a | group_by(.)", c01Pipe(a, c01GroupBy)}, {"[.a[], .b, .a[]] | group_by(.) | length", c01Pipe(c01Collect(c01Union(c01Union(ai, b), ai)), c01Pipe(c01GroupBy, c01Length))},
 		{".a | contains([1])", c01Bin(a, c01Collect(one), c01Contains)}, // the argument of contains is evaluated on the current node (the sequence), where a key step is an error
 		{"[.a[], .b] | contains([.b])", c01Pipe(c01Collect(c01Union(ai, b)), c01Bin(c01Self, c01Collect(b), c01Contains))}, {".a | contains(.e)", c01Pipe(a, c01Bin(c01Self, c01Key("e"), c01Contains))},
@@ -778,7 +824,7 @@ func VerifC01Core() {
 	evalAll := verifChoice("evalAll", 2) == 1
 	doc.EvaluateTogether = evalAll
 	ref := c01Map([]string{"a", "b", "s", "m", "e"}, []*c01V{c01Seq(xv...), {k: 2, i: bv, s: bd}, c01Str("k"), c01Map([]string{"k"}, []*c01V{{k: 2, i: mv, s: md}}), c01Seq()})
-	c01Empty, c01Open = false, false
+	c01Empty, c01Open, c01MissingOperand, c01OperandDepth = false, false, false, 0
 	want, wantOK := progs[p].ref([]*c01V{ref})
 	res, err := vEval(vParse(progs[p].text), doc)
 	label := "program=" + progs[p].text
@@ -791,6 +837,9 @@ func VerifC01Core() {
 	}
 	if c01Empty {
 		label += " [empty operand stream]"
+	}
+	if c01MissingOperand {
+		label += " [missing key read as an operand]"
 	}
 	if !wantOK {
 		verifCover("C01/error-expected")
